@@ -22,6 +22,6 @@ ncaught = sum(1 for r in rows if '**missed**' not in r)
 tab += '\n\n%d of %d seeded mutations are reported by at least one check (each seed: patch + demonstration + meta.json under `seeded/<name>/`; every one was re-verified by us in a scratch worktree: builds, 170/170 tests pass with the patch, the demonstration fails with it and passes without).' % (ncaught, len(rows))
 p = os.path.join(HERE, 'DESIGN.md')
 s = open(p).read()
-s = re.sub(r'<!-- MATRIX-BEGIN -->.*?<!-- MATRIX-END -->', '<!-- MATRIX-BEGIN -->\n' + tab + '\n<!-- MATRIX-END -->', s, flags=re.S)
+s = re.sub(r'<!-- MATRIX-BEGIN -->.*?<!-- MATRIX-END -->', lambda m: '<!-- MATRIX-BEGIN -->\n' + tab + '\n<!-- MATRIX-END -->', s, flags=re.S)
 open(p, 'w').write(s)
 print(ncaught, 'of', len(rows))
